@@ -32,7 +32,6 @@ Definition pinned_server_skeleton : list (string * string) :=
 Definition pinned_client_skeleton : list (string * string) :=
  [("Client"%string, "class(SocketInterface,MessageInterface)"%string);
   ("Client._connect"%string, "super().send_message(""Connecting ""{}"" as {} using protocol version {}"") super().receive_message() if[]{raise}else{} super().send_message(""{} ready for teams"") super().receive_message() if[]{if[]{raise}else{}}else{if[]{raise}else{}} super().send_message(""{} ready to start"")"%string);
-  ("Client.parse_hand"%string, ".set() for[]{for[]{if[]{continue}else{}}} return"%string);
   ("Client._deal"%string, "super().send_message(""{} ready for deal"") super().receive_message() self.send_message(""{} ready for cards"") super().receive_message()"%string);
   ("Client.bidding_phase"%string, "while[env.has_done()]{if[]{super().send_message()}else{super().send_message(""{} ready for {}'s bid"") super().receive_message()} env.take_bid() if[]{raise}else{} if[]{break}else{}} return"%string);
   ("Client.playing_phase"%string, "while[env.has_done()]{if[]{super().receive_message()}else{} for[]{if[]{if[]{super().send_message(""{} ready for dummy"") super().receive_message()}else{}}else{} if[]{env.play_card_by_player() super().send_message(""{} plays {}"")}else{if[]{env.play_card_by_player() super().send_message(""{} plays {}"")}else{super().send_message(""{} ready for {}'s card to trick {}"") super().receive_message() env.play_card_by_player()}}}}"%string);
@@ -53,5 +52,5 @@ Lemma client_skeleton_pinned : client_skeleton = pinned_client_skeleton.
 Proof. reflexivity. Qed.
 Lemma framing_skeleton_pinned : framing_skeleton = pinned_framing_skeleton.
 Proof. reflexivity. Qed.
-Example skeleton_not_empty : (List.length pinned_server_skeleton, List.length pinned_client_skeleton, List.length pinned_framing_skeleton) = (17, 7, 6).
+Example skeleton_not_empty : (List.length pinned_server_skeleton, List.length pinned_client_skeleton, List.length pinned_framing_skeleton) = (17, 6, 6).
 Proof. vm_compute. reflexivity. Qed.
